@@ -125,6 +125,9 @@ func (r *Recorder) add(e Ev) int64 {
 	return e.Seq
 }
 
+// Add appends an event from the harness.
+func (r *Recorder) Add(e Ev) int64 { return r.add(e) }
+
 // Events returns a copy of the log.
 func (r *Recorder) Events() []Ev {
 	r.mu.Lock()
@@ -149,6 +152,7 @@ type peerState struct {
 	spec     PeerSpec
 	mu       sync.Mutex
 	sessions int // number of OnEstablished so far
+	sessIDs  []int // world-wide session number of each
 	writers  []corebgp.UpdateMessageWriter
 	retained []retained
 }
@@ -164,6 +168,7 @@ type World struct {
 	mu        sync.Mutex
 	peers     map[string]*peerState
 	capsCalls atomic.Int64
+	sessCtr   atomic.Int64
 	serveDone chan struct{}
 	serveErr  error
 	served    bool
@@ -381,17 +386,37 @@ func (w *World) Sessions(peer string) int {
 	return ps.sessions
 }
 
-// WriteUpdate calls WriteUpdate on the writer of (peer, sess) from the calling
-// goroutine, recording wu+/wu- events; g tags the caller.
-func (w *World) WriteUpdate(peer string, sess int, g int64, body []byte) (called bool, err error) {
+// WriteUpdate calls WriteUpdate on the writer handed to the sess-th
+// OnEstablished of the peer's current registration, from the calling
+// goroutine, recording wu+/wu- events (N = world-wide session number); g tags
+// the caller. It returns the world-wide session number (-1 if no such writer).
+func (w *World) WriteUpdate(peer string, sess int, g int64, body []byte) (id int, err error) {
 	wr := w.Writer(peer, sess)
 	if wr == nil {
-		return false, nil
+		return -1, nil
 	}
-	w.Rec.add(Ev{K: "wu+", Peer: peer, N: sess, G: g, Data: body})
+	id = w.SessionID(peer, sess)
+	w.Rec.add(Ev{K: "wu+", Peer: peer, N: id, G: g, Data: body})
 	err = wr.WriteUpdate(body)
-	w.Rec.add(Ev{K: "wu-", Peer: peer, N: sess, G: g, Data: body, Err: err != nil})
-	return true, err
+	w.Rec.add(Ev{K: "wu-", Peer: peer, N: id, G: g, Data: body, Err: err != nil})
+	return id, err
+}
+
+// SessionID maps the sess-th session of the peer's current registration to
+// its world-wide session number.
+func (w *World) SessionID(peer string, sess int) int {
+	w.mu.Lock()
+	ps := w.peers[peer]
+	w.mu.Unlock()
+	if ps == nil {
+		return -1
+	}
+	ps.mu.Lock()
+	defer ps.mu.Unlock()
+	if sess < 0 || sess >= len(ps.sessIDs) {
+		return -1
+	}
+	return ps.sessIDs[sess]
 }
 
 // RetainedIntact checks that every slice the handler was given still has the
@@ -495,16 +520,19 @@ func (p *plugin) OnOpenMessage(pc corebgp.PeerConfig, routerID netip.Addr, caps 
 
 func (p *plugin) OnEstablished(pc corebgp.PeerConfig, wr corebgp.UpdateMessageWriter) corebgp.UpdateMessageHandler {
 	peer := pc.RemoteAddress.String()
+	sess := int(p.w.sessCtr.Add(1)) - 1 // world-wide session number
 	p.ps.mu.Lock()
-	sess := p.ps.sessions
+	local := p.ps.sessions
 	p.ps.sessions++
+	p.ps.sessIDs = append(p.ps.sessIDs, sess)
 	p.ps.writers = append(p.ps.writers, wr)
 	p.ps.mu.Unlock()
 	p.w.Rec.add(Ev{K: "est+", Peer: peer, N: sess})
 	p.sleep("est")
 	for _, b := range p.ps.spec.Plugin.WriteInEst {
-		p.w.WriteUpdate(peer, sess, -1, b)
+		p.callbackWrite(wr, peer, sess, -1, b)
 	}
+	_ = local
 	p.w.Rec.add(Ev{K: "est-", Peer: peer, N: sess})
 	if p.ps.spec.Plugin.NilHandler {
 		return nil
@@ -520,7 +548,7 @@ func (p *plugin) OnEstablished(pc corebgp.PeerConfig, wr corebgp.UpdateMessageWr
 		p.sleep("upd")
 		if calls == 1 {
 			for _, b := range p.ps.spec.Plugin.WriteInUpd {
-				p.w.WriteUpdate(peer, sess, -2, b)
+				p.callbackWrite(wr, peer, sess, -2, b)
 			}
 		}
 		var n *corebgp.Notification
@@ -536,15 +564,29 @@ func (p *plugin) OnEstablished(pc corebgp.PeerConfig, wr corebgp.UpdateMessageWr
 	}
 }
 
+// callbackWrite is a WriteUpdate call made from inside a plugin callback.
+func (p *plugin) callbackWrite(wr corebgp.UpdateMessageWriter, peer string, sess int, g int64, body []byte) {
+	p.w.Rec.add(Ev{K: "wu+", Peer: peer, N: sess, G: g, Data: body})
+	err := wr.WriteUpdate(body)
+	p.w.Rec.add(Ev{K: "wu-", Peer: peer, N: sess, G: g, Data: body, Err: err != nil})
+}
+
 func (p *plugin) OnClose(pc corebgp.PeerConfig) {
 	peer := pc.RemoteAddress.String()
 	p.ps.mu.Lock()
-	sess := p.ps.sessions - 1
+	sess := -1
+	var wr corebgp.UpdateMessageWriter
+	if n := len(p.ps.sessIDs); n > 0 {
+		sess = p.ps.sessIDs[n-1]
+		wr = p.ps.writers[n-1]
+	}
 	p.ps.mu.Unlock()
 	p.w.Rec.add(Ev{K: "close+", Peer: peer, N: sess})
 	p.sleep("close")
 	for _, b := range p.ps.spec.Plugin.WriteInClose {
-		p.w.WriteUpdate(peer, sess, -3, b)
+		if wr != nil {
+			p.callbackWrite(wr, peer, sess, -3, b)
+		}
 	}
 	p.w.Rec.add(Ev{K: "close-", Peer: peer, N: sess})
 }
